@@ -46,6 +46,7 @@ func main() {
 		fmt.Fprintln(os.Stderr, "unknown property", prop)
 		os.Exit(2)
 	}
+	statsPath = *statsFile
 	run(*tier, *seed)
 	out.Flush()
 	writeStats(*statsFile)
